@@ -6,7 +6,7 @@ import json, os, subprocess, sys, shutil, glob, tempfile
 root = os.path.dirname(os.path.dirname(os.path.abspath(__file__)))
 flt = sys.argv[1] if len(sys.argv) > 1 else ''
 cases = []
-for f in sorted(glob.glob(os.path.join(root, 'selftest', 'mutants', '*.json'))):
+for f in sorted(glob.glob(os.path.join(root, 'selftest', 'mutants', '*.json')) + glob.glob(os.path.join(root, 'selftest', 'harmless', '*.json'))):
     m = json.load(open(f)); m['name'] = os.path.basename(f)[:-5]; cases.append(m)
 for d in sorted(glob.glob(os.path.join(root, 'seeded', '*'))):
     mf = os.path.join(d, 'meta.json')
@@ -27,12 +27,23 @@ for c in cases:
                 print(f"BROKEN {c['name']}: patch does not apply: {r.stdout}{r.stderr}"); bad += 1; continue
         else:
             p = os.path.join(scratch, c['file']); s = open(p).read()
-            if c['old'] not in s:
-                print(f"BROKEN {c['name']}: text to replace not found in {c['file']}"); bad += 1; continue
-            open(p, 'w').write(s.replace(c['old'], c['new'], 1))
+            edits = c.get('edits') or [{'old': c['old'], 'new': c['new']}]
+            missing = [e['old'][:40] for e in edits if e['old'] not in s]
+            if missing:
+                print(f"BROKEN {c['name']}: text to replace not found in {c['file']}: {missing}"); bad += 1; continue
+            for e in edits:
+                s = s.replace(e['old'], e['new'], 1)
+            open(p, 'w').write(s)
         env = dict(os.environ, GOCV_REPO=scratch)
         r = subprocess.run([os.path.join(root, 'bin', 'gocv'), 'check', c['property'], 'quick'], cwd=root, env=env, capture_output=True, text=True)
         failed = [l.split()[1] for l in r.stdout.splitlines() if l.startswith('FAILED ')]
+        if c.get('expect_pass'):
+            # a harmless edit (behaviour-preserving refactoring): the check must stay quiet
+            if r.returncode == 0 and 'VIOLATION' not in r.stdout:
+                ok += 1; print(f"quiet   {c['name']} [{c['property']}]")
+            else:
+                bad += 1; print(f"FALSE-ALARM {c['name']} [{c['property']}] rc={r.returncode} failed={failed[:4]}\n   " + '\n   '.join(r.stdout.splitlines()[-3:]))
+            continue
         hit = r.returncode == 1 and 'VIOLATION' in r.stdout and (not c.get('expect') or any(any(e in f for f in failed) for e in c['expect']))
         if hit:
             ok += 1; print(f"caught  {c['name']} [{c['property']}] -> {', '.join(failed)[:200]}")
